@@ -68,6 +68,86 @@ def case_iterate_local(log, order, its=1):
     log.path_stats(pm)
 
 
+def case_iterate_rate(log, order, its=(1, 2, 3)):
+    """Documented rate of eko_iterate: over a0 -> a0(1+eps) the leading (eps^3) error of n midpoint steps is exactly 1/n^2 of the
+    one-step error -- in particular it contains the path-ordering commutator with the right sign and step widths/midpoints that
+    follow the geometric nodes (an anti-ordered product or uniform widths leave an n-independent eps^3 remainder)."""
+    ns, sg, ei, as4, ad = kernel_modules()
+    log.encode(sg.eko_iterate, ad.exp_matrix_2D)
+    rp = (MOD, "replay_iterate_rate", {"order": order})
+    key = "singlet.eko_iterate:%d:rate" % order
+    log.register_replay(key, rp, _sampler)
+
+    def run():
+        jetmod.set_cap(5)
+        a0 = SR.var("a0")
+        assume(a0, ">0")
+        eps = Jet.lam()
+        a1 = a0 * (1 + eps)
+        bet, bs, _roots = sym_rge(order)
+        gs = singlet_gammas(order, "general")
+        saved = sg.ad
+        sg.ad = AdSeries(saved)
+        try:
+            Es = {n: sg.eko_iterate(gs, a1, a0, bet, (order, 0), n) for n in its}
+        finally:
+            sg.ad = saved
+        den = sum(b * a1 ** (k + 2) for k, b in enumerate(bet))
+        inv = a0 / den
+        N = realnp.empty((2, 2), dtype=object)
+        for i in range(2):
+            for j in range(2):
+                N[i, j] = sum(gs[k][i, j] * a1 ** (k + 1) for k in range(order)) * inv
+        Eex = ode_series(N, 2)
+        for i in range(2):
+            for j in range(2):
+                err = {}
+                for n in its:
+                    d = as_jet(Es[n][i, j]) - Eex[i, j]
+                    cs = dict(residual_coeffs(d, 4))
+                    err[n] = cs[3]
+                for n in its[1:]:
+                    v = prove_zero(Cx.lift(err[n]) * (n * n) - Cx.lift(err[its[0]]), "eko_iterate order %d [%d,%d]: eps^3 error of %d steps == 1/%d of the one-step error" % (order, i, j, n, n * n), timeout_ms=60000)
+                    log.decide(v, key=key, replay=rp, sampler=_sampler)
+        log.twin("domain")
+        log.collect_ctx()
+
+    _r, pm = explore(run)
+    log.path_stats(pm)
+
+
+def replay_iterate_rate(point, order):
+    """real eko_iterate vs a high-precision solution of the matrix ODE: the error must fall like 1/n^2 (n = 4, 8, 16 steps)"""
+    import numpy as np
+    import mpmath as mp
+    import eko.kernels.singlet as sg
+    from eko import beta as B
+
+    nf = 4
+    rng = np.random.default_rng(11)
+    g = rng.normal(size=(order, 2, 2)) * 3 + 0.2j
+    bet = [B.beta_qcd((2 + k, 0), nf) for k in range(order)]
+    a0, a1 = 0.05, 0.02
+    mp.mp.dps = 30
+
+    def rhs(t, y):
+        a = a0 + t * (a1 - a0)
+        den = sum(b * a ** (k + 2) for k, b in enumerate(bet)) / (a1 - a0)
+        G = [[sum(mp.mpc(complex(g[k][i][j])) * a ** (k + 1) for k in range(order)) / den for j in range(2)] for i in range(2)]
+        return [G[0][0] * y[0] + G[0][1] * y[2], G[0][0] * y[1] + G[0][1] * y[3], G[1][0] * y[0] + G[1][1] * y[2], G[1][0] * y[1] + G[1][1] * y[3]]
+
+    sol = mp.odefun(rhs, 0, [1, 0, 0, 1], tol=1e-18)(1)
+    exact = np.array([[complex(sol[0]), complex(sol[1])], [complex(sol[2]), complex(sol[3])]])
+    errs = []
+    for n in (4, 8, 16, 32):
+        E = sg.eko_iterate(g, a1, a0, np.array(bet), (order, 0), n)
+        errs.append(np.abs(E - exact).max())
+    rate = np.log(errs[-2] / errs[-1]) / np.log(2)
+    if rate < 1.7:
+        return {"detail": "eko_iterate order %d (a0=0.05 -> a1=0.02, nf=4, non-commuting gamma): errors %r for 4, 8, 16, 32 steps, rate %.2f instead of 2" % (order, errs, rate)}
+    return None
+
+
 def case_uvec(log, K):
     ns, sg, ei, as4, ad = kernel_modules()
     log.encode(sg.u_vec, ad.exp_matrix_2D)
@@ -491,6 +571,7 @@ def main():
         chk.case("iterate.local.o%d" % o, case_iterate_local, order=o)
     for o in (2, 3):
         chk.case("iterate.local.2steps.o%d" % o, case_iterate_local, order=o, its=2)
+        chk.case("iterate.rate.o%d" % o, case_iterate_rate, order=o, its=(1, 2, 3) if (thorough or o == 2) else (1, 2))
     for o in (1, 2, 3, 4):
         chk.case("dispatcher.routing.o%d" % o, case_routing, order=o)
     chk.case("u_vec.K4", case_uvec, K=4)
